@@ -28,6 +28,25 @@ struct Pair {
     b: i32,
 }
 
+mod gv {
+    use garde::Validate;
+    use serde::Deserialize;
+    #[derive(Deserialize, Debug, Validate)]
+    pub struct VInner {
+        #[garde(length(min = 2))]
+        pub name: String,
+    }
+    #[derive(Deserialize, Debug, Validate)]
+    pub struct VOuter {
+        #[garde(dive)]
+        pub a: VInner,
+        #[garde(dive)]
+        pub b: VInner,
+        #[garde(dive)]
+        pub c: VInner,
+    }
+}
+
 struct Custom;
 impl MessageFormatter for Custom {
     fn format_message<'a>(&self, err: &'a Error) -> Cow<'a, str> {
@@ -130,6 +149,7 @@ enum Target {
     Pair,
     Int,
     Bytes,
+    Valid,
 }
 fn parse(target: Target, text: &str, entry: &str, opts: Options) -> Option<Error> {
     macro_rules! go {
@@ -148,6 +168,11 @@ fn parse(target: Target, text: &str, entry: &str, opts: Options) -> Option<Error
         Target::Pair => go!(Pair),
         Target::Int => go!(i32),
         Target::Bytes => go!(Vec<u8>),
+        Target::Valid => match entry {
+            "reader" => serde_saphyr::from_reader_with_options_valid::<_, gv::VOuter>(std::io::Cursor::new(text.as_bytes().to_vec()), opts).err(),
+            "slice" => serde_saphyr::from_slice_with_options_valid::<gv::VOuter>(text.as_bytes(), opts).err(),
+            _ => serde_saphyr::from_str_with_options_valid::<gv::VOuter>(text, opts).err(),
+        },
     }
 }
 
@@ -273,6 +298,19 @@ fn gen_doc(rng: &mut Rng, i: usize) -> Doc {
             text.push('\n');
             return Doc { text, target: Target::Map, family: "ring" };
         }
+        7 if i % 16 == 15 => {
+            // a validation error with several issues a few lines apart (one window per issue, or two through an alias)
+            let bad = |rng: &mut Rng| if rng.chance(2, 3) { "x" } else { "fine" };
+            let through = rng.chance(1, 2);
+            if through { lines.push(format!("d: &d {{name: {}}}", bad(rng))); }
+            for k in ["a", "b", "c"] {
+                for _ in 0..rng.below(3) { lines.push(ctx(rng)); }
+                if through && k == "b" { lines.push("b: *d".to_string()); continue; }
+                lines.push(format!("{k}:"));
+                lines.push(format!("  name: {}", bad(rng)));
+            }
+            (Target::Valid, "validation")
+        }
         _ => {
             // a huge line (storage-time cropping: > 4 KiB)
             let n = 4200 + rng.below(3000);
@@ -379,6 +417,7 @@ fn render_all(doc: &Doc, id: &str, radii: &[usize], rng: &mut Rng, w: &mut NdWri
                             Some(ls) if ls.reference_location != ls.defined_location => vec![lc(&ls.reference_location), lc(&ls.defined_location)],
                             _ => err.location().map(|l| vec![lc(&l)]).unwrap_or_default(),
                         };
+                        let is_validation = classify(&err) == "Validation";
                         let rendered = match fmt_s.as_str() {
                             "user" => err.render_with_formatter(&UserMessageFormatter),
                             "custom" => err.render_with_formatter(&Custom),
@@ -386,6 +425,15 @@ fn render_all(doc: &Doc, id: &str, radii: &[usize], rng: &mut Rng, w: &mut NdWri
                         };
                         // the same error without snippets must be clean too
                         let plain = err.render_with_options(serde_saphyr::render_options! { formatter: &DefaultMessageFormatter, snippets: SnippetMode::Off });
+                        // a validation error is about several places: the ones its own headlines name, in order
+                        let locs = if is_validation {
+                            let mut v = vec![];
+                            for i in issues_snippet(&rendered) {
+                                v.push(LC { line: i.uline, col: i.ucol, off: 0, len: 0 });
+                                if (i.dline, i.dcol) != (i.uline, i.ucol) { v.push(LC { line: i.dline, col: i.dcol, off: 0, len: 0 }); }
+                            }
+                            v
+                        } else { locs };
                         Some((locs, rendered, plain))
                     });
                     let (locs, out, panic) = match r {
@@ -414,20 +462,26 @@ fn render_all(doc: &Doc, id: &str, radii: &[usize], rng: &mut Rng, w: &mut NdWri
         let err = parse(target, &text, "str", Options::default())?;
         let loc = err.location().map(|l| lc(&l));
         let report = serde_saphyr::miette::to_miette_report(&err, &text, "in.yaml");
-        let labels: Vec<Label> = report
-            .labels()
-            .map(|ls| {
-                ls.map(|l| {
-                    let txt = report
+        // labels of the diagnostic itself, or (validation errors) of its related diagnostics, in order
+        fn gather(d: &dyn miette::Diagnostic, top: &dyn miette::Diagnostic, out: &mut Vec<Label>) {
+            if let Some(ls) = d.labels() {
+                for l in ls {
+                    let txt = top
                         .source_code()
                         .and_then(|sc| sc.read_span(l.inner(), 0, 0).ok())
                         .map(|c| String::from_utf8_lossy(c.data()).chars().map(|c| c as u32).collect())
                         .unwrap_or_default();
-                    Label { off: l.offset() as i64, len: l.len() as i64, txt }
-                })
-                .collect()
-            })
-            .unwrap_or_default();
+                    out.push(Label { off: l.offset() as i64, len: l.len() as i64, txt });
+                }
+            }
+            if out.is_empty() {
+                if let Some(rel) = d.related() {
+                    for r in rel { gather(r, r, out); }
+                }
+            }
+        }
+        let mut labels: Vec<Label> = vec![];
+        gather(report.as_ref(), report.as_ref(), &mut labels);
         let mut s = String::new();
         let handler = miette::GraphicalReportHandler::new_themed(miette::GraphicalTheme::unicode_nocolor()).with_width(200);
         let _ = handler.render_report(&mut s, report.as_ref());
